@@ -20,8 +20,8 @@ EXTENDS VectorQueryOps, Json, IOUtils, SequencesExt
 Rec == ndJsonDeserialize(IOEnv.TRACE)
 N   == Len(Rec)
 
-VARIABLES l, T, ever, data, model, metric, hasIndex, nparts, scn, bad, info, cnt
-tvars == <<l, T, ever, data, model, metric, hasIndex, nparts, scn, bad, info, cnt>>
+VARIABLES l, T, ever, data, model, metric, stable, inIndex, purged, hasIndex, nparts, scn, bad, info, cnt
+tvars == <<l, T, ever, data, model, metric, stable, inIndex, purged, hasIndex, nparts, scn, bad, info, cnt>>
 
 SeqToSet(s) == {s[i] : i \in 1..Len(s)}
 IsErr(P) == "error" \in DOMAIN P
@@ -31,7 +31,7 @@ ObsRows(P) == {[key |-> P.rows[i][1], vec |-> <<P.rows[i][2], P.rows[i][3]>>, va
 Counters == {"scenarios", "steps", "create", "append", "delete", "index", "scalar_index", "optimize", "compact", "query",
              "step_failed", "results", "judged", "accepted", "nonempty", "skipped_undefined",
              "flat", "ivf", "ivf-refine", "ivf-partial", "prefilter", "postfilter", "fast",
-             "with_deleted", "with_unindexed", "k_exceeds_eligible", "ties_at_boundary", "multi_delta"}
+             "with_deleted", "with_unindexed", "k_exceeds_eligible", "ties_at_boundary", "multi_delta", "with_purged"}
 
 Bump(c, names) == [n \in DOMAIN c |-> IF n \in names THEN c[n] + 1 ELSE c[n]]
 RECURSIVE BumpAll(_, _)
@@ -51,12 +51,37 @@ ModeOf(st, v) ==
         IF v.fast THEN "fast" ELSE "full" >>
 AllDefined(Q) == \A r \in T : Defined(Q.metric, r.vec, Q.q)
 
+(* Deviation PurgedRowsStayInIndex (what lance does today, found by this check): on a table with
+   stable row ids, compaction physically removes deleted rows but the vector index keeps their
+   entries and no deletion mask covers them any more.  Such a row still competes for the top k
+   inside the index and is lost afterwards (fewer than k results, possibly none) or the query
+   fails when the take finds fewer rows than the index returned.  `purged` holds those rows.
+   A rejected answer is attributed to the deviation when a purged row can be among the k nearest
+   index entries and what was returned is otherwise sound.                                        *)
+PurgedExplains(Q, indexUsed, r) ==
+  LET P == IF Q.hasFilter /\ Q.prefilter THEN {} ELSE purged      \* a real pre-filter only allows live rows
+      post == Q.hasFilter /\ ~Q.prefilter
+      base == IF post THEN Candidates(T, Q, hasIndex) ELSE Eligible(T, Q, hasIndex)
+      S == {[key |-> x.key, vec |-> x.vec] : x \in base} \cup {[key |-> x.key, vec |-> x.vec] : x \in P}
+      R == r.rows
+      sound == /\ Cardinality(RKeys(R)) = Len(R) /\ Len(R) <= Q.k
+               /\ \A i \in 1..Len(R) : /\ R[i][1] \in Keys(Eligible(T, Q, hasIndex))
+                                        /\ Abs(R[i][2] - Dist(Q.metric, RowOf(T, R[i][1]).vec, Q.q)) <= Tol(Q.metric)
+               /\ \A i \in 1..(Len(R) - 1) : R[i][2] <= R[i + 1][2]
+  IN /\ stable /\ indexUsed /\ P # {}
+     /\ \E p \in P : Cardinality(S) <= Q.k \/ Dist(Q.metric, p.vec, Q.q) <= KthDist(S, Q)
+     /\ (r.res # "ok" \/ sound)
+
 \* judgement of one variant result: set of violated clauses
 JudgeResult(st, r) ==
-  LET Q == QueryOf(st, r.variant) IN
-  IF r.res # "ok" THEN {"QueryFailed"}
-  ELSE IF ~AllDefined(Q) THEN {}
-  ELSE Judge(T, ever, Q, hasIndex, r.rows)
+  LET Q == QueryOf(st, r.variant)
+      indexUsed == r.variant.use_index /\ hasIndex
+      v == IF r.res # "ok" THEN {"QueryFailed"}
+           ELSE IF ~AllDefined(Q) THEN {}
+           ELSE Judge(T, ever, Q, hasIndex, r.rows)
+  IN IF v # {} /\ v \subseteq {"QueryFailed", "WrongCount", "NotNearest", "PostFilterLostRow"} /\ AllDefined(Q)
+        /\ PurgedExplains(Q, indexUsed, r)
+     THEN {"PurgedRowsStayInIndex"} ELSE v
 
 \* observations about answers of modes that do not claim exactness (reported, not judged)
 ObserveResult(st, r) ==
@@ -78,11 +103,13 @@ Facts(st, r) ==
      \cup (IF r.res = "ok" /\ ~AllDefined(Q) THEN {"skipped_undefined"} ELSE {})
      \cup (IF r.res = "ok" /\ Len(r.rows) > 0 THEN {"nonempty"} ELSE {})
      \cup (IF ever # Keys(T) THEN {"with_deleted"} ELSE {})
+     \cup (IF purged # {} /\ v.use_index /\ hasIndex THEN {"with_purged"} ELSE {})
      \cup (IF hasIndex /\ v.use_index /\ (\E x \in T : ~x.indexed) THEN {"with_unindexed"} ELSE {})
      \cup (IF Q.k > Cardinality(E) THEN {"k_exceeds_eligible"} ELSE {})
      \cup (IF tie THEN {"ties_at_boundary"} ELSE {})
 
 Init == /\ l = 1 /\ T = {} /\ ever = {} /\ data = <<>> /\ model = {} /\ metric = "l2" /\ hasIndex = FALSE /\ nparts = 0
+        /\ stable = FALSE /\ inIndex = {} /\ purged = {}
         /\ scn = 0 /\ bad = <<>> /\ info = <<>> /\ cnt = [n \in Counters |-> 0]
 
 StepRows(st) == {[key |-> st.rows[i][1], vec |-> <<st.rows[i][2], st.rows[i][3]>>, val |-> st.rows[i][4]] : i \in 1..Len(st.rows)}
@@ -116,16 +143,23 @@ Step(e) ==
      /\ ever' = ever \cup {w.key : w \in written} \cup Keys(obs)
      /\ data' = data1
      /\ model' = IF usable THEN Keys(obs) ELSE model1          \* re-synchronise: one divergence is reported once
+     \* ghost: keys the vector index has entries for; rows among them that compaction removed physically
+     /\ inIndex' = IF op = "index" /\ ok THEN Keys(obs) ELSE IF op = "optimize" /\ ok THEN inIndex \cup Keys(obs) ELSE inIndex
+     /\ purged' = IF op = "index" /\ ok THEN {}
+                  ELSE IF op = "compact" /\ ok /\ stable /\ hasIndex
+                       THEN purged \cup {data[k] : k \in (inIndex \ Keys(obs)) \cap DOMAIN data}
+                       ELSE purged
      /\ hasIndex' = IF usable THEN P.deltas > 0 ELSE hasIndex
      /\ nparts' = IF usable THEN P.nparts ELSE nparts
      /\ cnt' = BumpAll(Bump(cnt, {"steps", op} \cup (IF ~ok THEN {"step_failed"} ELSE {})
                                    \cup (IF usable /\ P.deltas > 1 /\ op = "query" THEN {"multi_delta"} ELSE {})), facts)
-     /\ UNCHANGED <<metric, scn>>
+     /\ UNCHANGED <<metric, stable, scn>>
 
 Next == /\ l <= N /\ l' = l + 1
         /\ LET e == Rec[l] IN
            IF e.ev = "reset"
            THEN /\ T' = {} /\ ever' = {} /\ data' = <<>> /\ model' = {} /\ metric' = e.metric /\ hasIndex' = FALSE
+                /\ stable' = e.stable /\ inIndex' = {} /\ purged' = {}
                 /\ nparts' = 0 /\ scn' = e.scn /\ bad' = bad /\ info' = info /\ cnt' = Bump(cnt, {"scenarios"})
            ELSE Step(e)
 TraceSpec == Init /\ [][Next]_tvars
